@@ -169,7 +169,7 @@ Definition bl_new (exp locs : N) : bloom :=
 
 Definition bloom_geometry_ok (exp locs : N) : bool :=
   (9 <=? exp) && (exp <=? 63) && (1 <=? locs) &&
-  ((locs - 1) * (N.shiftl 1 (64 - exp) - 1) + (N.shiftl 1 exp - 1) <? two64).
+  (locs * (N.shiftl 1 exp - 1) <? two64).
 
 (** ** tinylfu.rs *)
 
